@@ -1,4 +1,5 @@
 import PhyloModel.Props.C15
+import PhyloModel.Props.C15Clamp
 import PhyloModel.Props.C15Det
 #print axioms C15.update_is_average_linkage
 #print axioms C15.step_keeps_linkage
@@ -9,6 +10,17 @@ import PhyloModel.Props.C15Det
 #print axioms C15.step_total
 #print axioms C15.upgma_tree
 #print axioms C15.upgma_recovers_ultrametric
+#print axioms C15.upgmaC_eq_upgma
+#print axioms C15.stepC_eq_step
+#print axioms C15.upgmaC_tree
+#print axioms C15.upgmaC_ok_nonneg
+#print axioms C15.upgmaC_recovers_ultrametric
+#print axioms C15.upgmaC_taxon_order
+#print axioms C15.upgmaC_taxon_order_input
+#print axioms C15.tie_flagC_certifies_unambiguous
+#print axioms C15.upgmaC_taxon_order_tie_free
+#print axioms C15.upgmaC_lengths_nonneg_always
+#print axioms C15.clamp_changes_negative_input
 #print axioms C15.avglink_perm_invariant
 #print axioms C15.state_abstraction
 #print axioms C15.average_linkage_deterministic
